@@ -81,8 +81,16 @@ func VfC08_ParseGlobals() {
 		default:
 			src += id + " = alias i32, i32* @t\n"
 		}
+		// other numbered top-level definitions (attribute groups, metadata) may
+		// stand anywhere between the globals; their numbers are unrelated
+		switch vfChoice("between"+string(rune('0'+i)), 3) {
+		case 1:
+			src += "attributes #" + string(rune('5'+i)) + " = { nounwind }\n"
+		case 2:
+			src += "!" + string(rune('3'+i)) + " = !{}\n"
+		}
 	}
-	src += "@t = global i32 7\n"
+	src += "@t = global i32 7\n@user = global i32* @0\n"
 	// known finding: the printer numbers by group (globals, aliases, ifuncs,
 	// functions), the parser by textual order
 	sorted := true
